@@ -2,14 +2,14 @@
 
 ``inherit(chk, rid, "c03", ["R03.1", "R03.2"], functions={"Crystal.molecule_environment"})`` evaluates the named rules of
 sa/rules/c03.py on the same tree and re-emits their obligations under rule ``rid`` of the calling property, optionally
-restricted to some functions.  Analysis errors of the inherited rule propagate.
+restricted to some functions (and, with ``fingerprints``, to the clauses of the rule the calling property rests on).  Analysis errors of the inherited rule propagate.
 """
 from __future__ import annotations
 
 import importlib
 
 
-def inherit(chk, rid, modname, rules, functions=None, prefix=None):
+def inherit(chk, rid, modname, rules, functions=None, prefix=None, fingerprints=None):
     from .report import Check
     mod = importlib.import_module(f"sa.rules.{modname}")
     n = 0
@@ -21,6 +21,8 @@ def inherit(chk, rid, modname, rules, functions=None, prefix=None):
             if o.rule != r:
                 continue
             if functions is not None and o.function not in functions:
+                continue
+            if fingerprints is not None and not fingerprints(str(o.fingerprint)):
                 continue
             n += 1
             chk.ob(rid, o.module, o.function, f"[{r}] {o.what}", o.ok, line=o.line, fingerprint=f"{r}:{o.fingerprint}",
